@@ -532,6 +532,7 @@ func runC03(c *Ctx) {
 			c.Note("TABLE-TOTAL: partial switch without default in %s over %s (%d constants not listed): not an obligation", es.Fn, typeShort(es.Type), len(es.Missing))
 		}
 	}
+	c04Extra(c)
 }
 
 // enclosingStmtList returns the innermost block/clause that contains n.
